@@ -24,7 +24,7 @@ func (*constRange) Exit(node *Node) {
 					}
 					// In this case array is too big. Skip generation,
 					// and wait for memory budget detection on runtime.
-					if size > 1e6 {
+					if size >= 1e6 {
 						return
 					}
 					value := make([]int, size)
